@@ -118,10 +118,10 @@ func (p *Parser) typeErrorIn(intf types.Object) error {
 // isValidIdentifier checks if the given string is a valid identifier.
 func isValidIdentifier(id string) bool {
 	for i, r := range id {
-		if !unicode.IsLetter(r) &&
+		if !unicode.IsLetter(r) && r != '_' &&
 			!(0 < i && unicode.IsDigit(r)) {
 			return false
 		}
 	}
-	return id != "" && !token.IsKeyword(id)
+	return id != "" && id != "_" && !token.IsKeyword(id)
 }
